@@ -173,7 +173,9 @@ Definition dispatch (cmd : string) (args : list sexp) : option sexp :=
       match dec_list dec_mod mods, dec_list dec_block blocks with
       | Some ms, Some bs =>
           let heap := map (fun m => (fst (fst m), snd (fst m))) ms in
-          Some (SL [enc_bool (wf_heapb heap); enc_bool (forallb (block_okb heap) (map fst bs)); enc_bool (names_okb heap)])
+          let st := mkSt heap (build_vals (flat_map snd ms ++ flat_map snd bs)) FRESH_BASE [] in
+          Some (SL [enc_bool (wf_heapb heap); enc_bool (forallb (block_okb heap) (map fst bs)); enc_bool (names_okb heap);
+                    enc_bool (forallb (block_ok2b heap) (map fst bs)); enc_bool (inplace_block_domainb st (map fst bs))])
       | _, _ => None
       end
   | "from-module", [mods; SZ root] =>
